@@ -87,8 +87,13 @@ qb_loop_timer_msec_duration_to_expire(struct qb_loop_source * timer_source)
 {
 	struct qb_timer_source *my_src = (struct qb_timer_source *)timer_source;
 	uint64_t left = timerlist_msec_duration_to_expire(&my_src->timerlist);
-	if (left != -1 && left > 0xFFFFFFFF) {
-		left = 0xFFFFFFFE;
+	/*
+	 * This ends up as the timeout of poll(): anything above INT32_MAX
+	 * would turn into a negative number there, i.e. "wait forever".
+	 * Waking up after 24 days to look again does no harm.
+	 */
+	if (left != -1 && left > INT32_MAX) {
+		left = INT32_MAX;
 	}
 	return left;
 }
